@@ -605,6 +605,7 @@ func (s *scenario) exec(er *ev.Run, h []event) (string, string, *seqx.Failure) {
 	s.hints.Store(key(h), hn)
 	for k := range r.flags {
 		er.Distinct("decoration_cases_checked", k)
+		caseSet.Store(k, true)
 	}
 	if m := f.Tx.Mutated(); len(m) > 0 {
 		er.Add("events_changed_after_enqueue", int64(len(m)))
@@ -652,6 +653,8 @@ func (s *scenario) enabled(h []event) []event {
 	}
 	return out
 }
+
+var caseSet sync.Map // every (option value, path, since-start/after-reload, count mode) combination the oracle was evaluated on
 
 // ---- samplers
 
@@ -903,6 +906,10 @@ func main() {
 			fmt.Printf("  %-28s depth %d histories %d  %.1fs\n", ls.name, d, n, time.Since(t).Seconds())
 		}
 	}
+	var cases []string
+	caseSet.Range(func(k, _ any) bool { cases = append(cases, k.(string)); return true })
+	sort.Strings(cases)
+	r.Set("decoration_cases", cases)
 	r.Set("bounds", bounds)
 	r.Set("traces_validated_against_impl", nloop)
 	r.Finish()
